@@ -2,8 +2,8 @@
 # C18: `fclones move` panics (device.rs get_mount_point: self.mount_points[0]) when the system has no
 # mount point that sysinfo regards as a disk (everything on tmpfs/ramfs), while `group`, `remove`, `link` work.
 # Needs root (unshare -m, mount, chroot). exit 1 = defect present, 0 = not present, 2 = could not set up.
-CHECKOUT=${1:-/tmp/hunt/n3}
-FC=/tmp/hunt/n3/target/debug/fclones
+CHECKOUT=${1:-/repo}
+FC=${1:-/repo}/target/debug/fclones
 [ -x "$FC" ] || FC="$CHECKOUT/target/debug/fclones"
 T=$(mktemp -d) || exit 2
 export FC T
